@@ -190,5 +190,6 @@ package magic
 //@   ghost return: json_parsed = parsed
 //@   ghost return: json_inspected = inspected
 //@   ghost return: json_satisfied = querySatisfied
+//@   ensures [C09_G_whole] result && (limit == 0 || len(raw) < limit) ==> wsLen(raw) < len(raw) && (raw[wsLen(raw)] == '{' || raw[wsLen(raw)] == '[') && valLen(raw, 0, 4096) == len(raw)
 //@   ensures [C08C09_decision_whole] result && (limit == 0 || len(raw) < limit) ==> json_satisfied && json_parsed == len(raw)
 //@   ensures [C08C09_decision_cut] result && !(limit == 0 || len(raw) < limit) ==> json_satisfied && json_inspected == len(raw) && len(raw) > 0
